@@ -258,6 +258,10 @@ static int dispatch(TcpAsyncCtx *tcpCtx) {
 				KSI_LOG_debug(tcpCtx->ctx, "[%p] Async TCP connection timeout.", tcpCtx);
 				reqQueue_clearWithError(tcpCtx->reqQueue, KSI_NETWORK_CONNECTION_TIMEOUT, 0, NULL);
 				res = KSI_OK;
+			} else if (tcpCtx->socketReady) {
+				/* Nothing to read and no room to write: the requests waiting in the send queue still have
+				 * to be timed out. */
+				break;
 			} else {
 				KSI_LOG_debug(tcpCtx->ctx, "[%p] Async TCP connection not ready.", tcpCtx);
 				res = KSI_OK;
@@ -384,12 +388,8 @@ static int dispatch(TcpAsyncCtx *tcpCtx) {
 		}
 	} while (!inputProcessed);
 
-	/* Handle output. */
-	if (!(pfd.revents & POLLOUT)) {
-		KSI_LOG_debug(tcpCtx->ctx, "[%p] Async TCP output buffer not ready.", tcpCtx);
-		res = KSI_OK;
-		goto cleanup;
-	}
+	/* Handle output. The queue is walked even when nothing can be written: a request that has waited
+	 * longer than the send timeout is handed back whether or not the socket is writable. */
 	while (KSI_AsyncHandleList_length(tcpCtx->reqQueue) > 0 &&
 			KSI_AsyncHandleList_elementAt(tcpCtx->reqQueue, 0, &req) == KSI_OK && req != NULL) {
 		time_t curTime = 0;
@@ -399,11 +399,6 @@ static int dispatch(TcpAsyncCtx *tcpCtx) {
 			KSI_LOG_info(tcpCtx->ctx, "[%p] Async TCP round request count: %llu.", tcpCtx, (unsigned long long)tcpCtx->roundCount);
 			tcpCtx->roundCount = 0;
 			tcpCtx->roundStartAt = curTime;
-		}
-		/* Check if more requests can be sent within the given timeframe. */
-		if (!(tcpCtx->roundCount < tcpCtx->parent->options[KSI_ASYNC_OPT_MAX_REQUEST_COUNT])) {
-			KSI_LOG_debug(tcpCtx->ctx, "[%p] Async TCP round max request count reached.", tcpCtx);
-			break;
 		}
 
 		if (req->state != KSI_ASYNC_STATE_WAITING_FOR_DISPATCH) {
@@ -435,6 +430,16 @@ static int dispatch(TcpAsyncCtx *tcpCtx) {
 			/* Just remove the request from the request queue. */
 			KSI_AsyncHandleList_remove(tcpCtx->reqQueue, 0, NULL);
 			continue;
+		}
+
+		if (!(pfd.revents & POLLOUT)) {
+			KSI_LOG_debug(tcpCtx->ctx, "[%p] Async TCP output buffer not ready.", tcpCtx);
+			break;
+		}
+		/* Check if more requests can be sent within the given timeframe. */
+		if (!(tcpCtx->roundCount < tcpCtx->parent->options[KSI_ASYNC_OPT_MAX_REQUEST_COUNT])) {
+			KSI_LOG_debug(tcpCtx->ctx, "[%p] Async TCP round max request count reached.", tcpCtx);
+			break;
 		}
 
 		KSI_LOG_logBlob(tcpCtx->ctx, KSI_LOG_DEBUG, "[%p] Async TCP: sending request.", req->raw, req->len, tcpCtx);
